@@ -181,7 +181,7 @@ func H_C10_copy_on_configure() {
 //symgo:redirect (*github.com/tsawler/tabula/reader.Reader).GetPage vStubGetPage
 //symgo:redirect (*github.com/tsawler/tabula/reader.Reader).ExtractTextFragments vStubFragments
 //symgo:redirect (*github.com/tsawler/tabula/reader.Reader).Close vStubClose
-//symgo:desc 4-page document (reader cut: page count, pages, fragments and Close are stubs); 1..2 selected pages, symbolic in [1,4]: Document() returns one model page per selected page, in ascending order, whose Number is the source page number; the reader is closed exactly once
+//symgo:desc 4-page document (reader cut: page count, pages, fragments and Close are stubs); 1..2 selected pages, symbolic in [1,4]: Document() returns one model page per selected page, in ascending order, whose Number is the source page number; the reader, supplied by the caller as through tabula.FromReader, is not closed by the terminal operation
 func H_C10_document_page_numbers() {
 	vPageCount = 4
 	vCloseCalls, vCloseErr = 0, false
@@ -193,7 +193,7 @@ func H_C10_document_page_numbers() {
 	if n == 2 {
 		vAssume(ps[0] != ps[1])
 	}
-	e := &Extractor{filename: "x.pdf", format: format.PDF, reader: &reader.Reader{}, readerOpened: true, ownsReader: true, options: defaultOptions()}
+	e := &Extractor{format: format.PDF, reader: &reader.Reader{}, readerOpened: true, ownsReader: false, options: defaultOptions()} // the state tabula.FromReader(r) builds: derivations share the caller-supplied reader
 	doc, _, err := e.Pages(ps...).Document()
 	vAssert("no-error", err == nil && doc != nil)
 	vAssert("one-model-page-per-selected-page", len(doc.Pages) == n)
@@ -208,7 +208,7 @@ func H_C10_document_page_numbers() {
 		}
 		vAssert("page-number-is-source-page", p.Number == want)
 	}
-	vAssert("reader-closed-once", vCloseCalls == 1)
+	vAssert("caller-supplied-reader-is-not-closed", vCloseCalls == 0)
 	vReach("end")
 }
 
